@@ -403,12 +403,19 @@ class API:
                 These are needed to look up messages in imported protos.
                 Primarily used for testing.
         """
+        def in_package(fd: descriptor_pb2.FileDescriptorProto) -> bool:
+            # The package itself or one of its subpackages; a package that
+            # merely starts with the same characters (e.g. `foo.v1beta1`
+            # or `foo.v1x` for `foo.v1`) is a different package.
+            return (
+                not package
+                or fd.package == package
+                or fd.package.startswith(package + ".")
+            )
+
         # Save information about the overall naming for this API.
         naming = api_naming.Naming.build(
-            *filter(
-                lambda fd: fd.package.startswith(package),
-                file_descriptors,
-            ),
+            *filter(in_package, file_descriptors),
             opts=opts,
         )
 
@@ -459,7 +466,7 @@ class API:
             fd.name = disambiguate_keyword_sanitize_fname(fd.name, pre_protos)
             pre_protos[fd.name] = Proto.build(
                 file_descriptor=fd,
-                file_to_generate=fd.package.startswith(package),
+                file_to_generate=in_package(fd),
                 naming=naming,
                 opts=opts,
                 prior_protos=pre_protos,
